@@ -9,6 +9,8 @@ import Mathlib.Tactic.Ring
 import Mathlib.Tactic.Linarith
 import Mathlib.Tactic.Abel
 import Mathlib.Tactic.Module
+import Mathlib.Tactic.FieldSimp
+import Mathlib.Tactic.Positivity
 
 /-!
 # C16 — helper lemmas
@@ -171,8 +173,14 @@ lemma cgls_inv (hV : oV.Lawful) (hW : oW.Lawful) (x0 : V) (maxit : ℕ) :
   rw [← h0]
   exact cglsLoop_inv A At b shift tol eps hV hW _ maxit _ (cglsInit_inv A At b shift tol hV hW _ x0)
 
+end CG
+
+section CGCount
+variable {K V W : Type} [Field K] [LinearOrder K] [IsStrictOrderedRing K]
+variable {oV : VOps K V} {oW : VOps K W} (fwd : V → W) (adj : W → V) (shift tol eps : K)
+
 lemma cglsLoop_count (gamma0 : K) (fuel : ℕ) (st : CGState K V W) :
-    let fin := cglsLoop oV oW A At shift tol eps gamma0 fuel st
+    let fin := cglsLoop oV oW fwd adj shift tol eps gamma0 fuel st
     fin.k ≤ st.k + fuel ∧ (fin.flag = false → fin.k = st.k + fuel) := by
   induction fuel generalizing st with
   | zero => simp [cglsLoop]
@@ -180,14 +188,14 @@ lemma cglsLoop_count (gamma0 : K) (fuel : ℕ) (st : CGState K V W) :
     unfold cglsLoop
     split_ifs with hf
     · simp [hf]
-    · have := ih (cglsStep oV oW A At shift tol eps gamma0 st)
-      have hk : (cglsStep oV oW A At shift tol eps gamma0 st).k = st.k + 1 := rfl
+    · have := ih (cglsStep oV oW fwd adj shift tol eps gamma0 st)
+      have hk : (cglsStep oV oW fwd adj shift tol eps gamma0 st).k = st.k + 1 := rfl
       simp only [hk] at this
       refine ⟨by omega, fun h => ?_⟩
       have := this.2 h
       omega
 
-end CG
+end CGCount
 
 section PCG
 variable {K V W : Type} [Field K] [LinearOrder K] [IsStrictOrderedRing K]
@@ -235,5 +243,103 @@ lemma pcgls_inv (hV : oV.Lawful) (hW : oW.Lawful) (shift : K) (x0 : V) (maxit : 
   exact pcglsLoop_inv A At b tol eps Pi PiT hV hW _ maxit _ (pcglsInit_inv A At b tol PiT hV hW _ x0)
 
 end PCG
+
+/-! ## Proximal-gradient fixed points and minimisers -/
+section ProxMin
+variable {K : Type} [Field K] [LinearOrder K] [IsStrictOrderedRing K]
+
+/-- the "small step" argument: a quadratic `θ·a + θ²·c` (`c ≥ 0`) that is non-negative on `(0,1]` has `a ≥ 0` -/
+lemma theta_trick (a c : K) (hc : 0 ≤ c) (h : ∀ θ : K, 0 < θ → θ ≤ 1 → 0 ≤ θ * a + θ ^ 2 * c) : 0 ≤ a := by
+  by_contra ha
+  rw [not_le] at ha
+  rcases hc.eq_or_lt with hc0 | hcpos
+  · have := h 1 one_pos le_rfl
+    rw [← hc0] at this; linarith
+  · set θ := min 1 (-a / (2 * c)) with hθ
+    have hpos : 0 < -a / (2 * c) := div_pos (by linarith) (by linarith)
+    have h1 : 0 < θ := lt_min one_pos hpos
+    have h2 : θ ≤ 1 := min_le_left _ _
+    have h3 : θ ≤ -a / (2 * c) := min_le_right _ _
+    have h4 : θ * c ≤ -a / 2 := by
+      have := mul_le_mul_of_nonneg_right h3 hcpos.le
+      have e : -a / (2 * c) * c = -a / 2 := by field_simp
+      linarith
+    have := h θ h1 h2
+    have : 0 ≤ θ * (a + θ * c) := by nlinarith
+    have : 0 ≤ a + θ * c := nonneg_of_mul_nonneg_right this h1
+    linarith
+
+section VI
+variable {E : Type} [AddCommGroup E] [Module K E]
+
+/-- `C` is convex and `g` is convex on `C` (segment form) -/
+structure ConvexData (C : Set E) (g : E → K) : Prop where
+  seg : ∀ x ∈ C, ∀ z ∈ C, ∀ θ : K, 0 ≤ θ → θ ≤ 1 → x + θ • (z - x) ∈ C
+  conv : ∀ x ∈ C, ∀ z ∈ C, ∀ θ : K, 0 ≤ θ → θ ≤ 1 → g (x + θ • (z - x)) ≤ g x + θ * (g z - g x)
+
+/-- minimising `Φ + g` over a convex set, `Φ` quadratic around `x`, is a variational inequality at `x` -/
+lemma min_iff_vi (C : Set E) (g : E → K) (hCg : ConvexData C g) (Φ : E → K) (x : E) (hx : x ∈ C)
+    (L Q : E → K) (hQ : ∀ d, 0 ≤ Q d)
+    (hΦ : ∀ (d : E) (θ : K), Φ (x + θ • d) = Φ x + θ * L d + θ ^ 2 * Q d) :
+    (∀ z ∈ C, Φ x + g x ≤ Φ z + g z) ↔ (∀ z ∈ C, 0 ≤ L (z - x) + (g z - g x)) := by
+  constructor
+  · intro h z hz
+    apply theta_trick _ (Q (z - x)) (hQ _)
+    intro θ h0 h1
+    have hm := h _ (hCg.seg x hx z hz θ h0.le h1)
+    have hc := hCg.conv x hx z hz θ h0.le h1
+    rw [hΦ] at hm
+    nlinarith
+  · intro h z hz
+    have e : z = x + (1 : K) • (z - x) := by rw [one_smul]; abel
+    have := hΦ (z - x) 1
+    rw [← e] at this
+    have h2 := h z hz
+    have h3 := hQ (z - x)
+    rw [this]; nlinarith
+
+end VI
+
+section IP
+variable {E F : Type} [AddCommGroup E] [Module K E] [AddCommGroup F] [Module K F]
+
+/-- a symmetric bilinear form with non-negative squares (e.g. the Euclidean dot product) -/
+structure IsIP (ip : E → E → K) : Prop where
+  add_left : ∀ a b c, ip (a + b) c = ip a c + ip b c
+  smul_left : ∀ (t : K) a c, ip (t • a) c = t * ip a c
+  comm : ∀ a b, ip a b = ip b a
+  nonneg : ∀ a, 0 ≤ ip a a
+
+lemma IsIP.expand {ip : E → E → K} (h : IsIP ip) (u w : E) (θ : K) :
+    ip (u + θ • w) (u + θ • w) = ip u u + θ * (2 * ip u w) + θ ^ 2 * ip w w := by
+  rw [h.add_left, h.smul_left, h.comm u, h.comm w, h.add_left, h.smul_left, h.add_left, h.smul_left, h.comm w u]
+  ring
+
+variable (ipE : E → E → K) (ipF : F → F → K) (A : E →ₗ[K] F) (At : F →ₗ[K] E) (b : F)
+
+/-- `½‖A x − b‖²` -/
+def lsq (x : E) : K := ipF (A x - b) (A x - b) / 2
+/-- `Aᵀ(A x − b)` -/
+def lsqGrad (x : E) : E := At (A x - b)
+
+/-- `p` minimises `½‖z − v‖² + t·g(z)` over `C`: `p = prox_{t g + ι_C}(v)` -/
+def IsProxPoint (C : Set E) (g : E → K) (t : K) (v p : E) : Prop :=
+  p ∈ C ∧ ∀ z ∈ C, ipE (p - v) (p - v) / 2 + t * g p ≤ ipE (z - v) (z - v) / 2 + t * g z
+
+lemma lsq_expand (hF : IsIP ipF) (hadj : ∀ d w, ipF (A d) w = ipE d (At w)) (hE : IsIP ipE) (x d : E) (θ : K) :
+    lsq ipF A b (x + θ • d) = lsq ipF A b x + θ * ipE (lsqGrad A At b x) d + θ ^ 2 * (ipF (A d) (A d) / 2) := by
+  unfold lsq lsqGrad
+  have e : A (x + θ • d) - b = (A x - b) + θ • A d := by rw [map_add, map_smul]; abel
+  rw [e, hF.expand, hF.comm (A x - b) (A d), hadj, hE.comm d]
+  ring
+
+lemma sq_expand (hE : IsIP ipE) (v x d : E) (θ : K) :
+    ipE (x + θ • d - v) (x + θ • d - v) / 2
+      = ipE (x - v) (x - v) / 2 + θ * ipE (x - v) d + θ ^ 2 * (ipE d d / 2) := by
+  have e : x + θ • d - v = (x - v) + θ • d := by abel
+  rw [e, hE.expand]; ring
+
+end IP
+end ProxMin
 
 end CuqiVerif.C16
